@@ -227,7 +227,12 @@ def g_co2_wiring(tier, seed):
 
     def run():
         v = {k: fresh_real(k, *DOM[k]) for k in ('d', 'c', 'dd', 't', 'p', 'h', 'xc', 'wl')}
-        return v, sv.first_vel_corrn(v['d'], (v['c'], v['dd']), v['t'], v['p'], v['h'], None, v['xc'], v['wl'])
+        v['wl2'] = fresh_real('wl2', *DOM['wl'])
+        r1 = sv.first_vel_corrn(v['d'], (v['c'], v['dd']), v['t'], v['p'], v['h'], None, v['xc'], v['wl'])
+        # the same atmosphere again with another carrier wavelength (second instrument), then the first one again: one process
+        r2 = sv.first_vel_corrn(v['d'], (v['c'], v['dd']), v['t'], v['p'], v['h'], None, v['xc'], v['wl2'])
+        r3 = sv.first_vel_corrn(v['d'], (v['c'], v['dd']), v['t'], v['p'], v['h'], None, v['xc'], v['wl'])
+        return v, (r1, r2, r3)
     with swap_globals(sv, group_refractivity=grp, humidity2part_water_vapour_press=h2p):
         paths, st = explore(run, max_paths=40)
     for p in paths:
@@ -239,12 +244,13 @@ def g_co2_wiring(tier, seed):
                                       z3.BoolVal(False), pid=PID, oracle='oracles.c19:atmosphere', args_from_model=mk, key='O3:co2-form',
                                       domain=DOM, num_conds=p.assumptions + p.pc, timeout_s=QT[tier]))
             continue
-        v, r = p.value
-        ng = 1 + grp(v['wl'], v['t'], v['p'], h2p(v['h'], v['t']), v['xc']) / 100000000
+        v, rs = p.value
         nref = 1 + v['c'] / 1000000
-        out.append(ob.decide_close('O3', 'CO2-aware correction = (n_ref / n_g - 1) * distance with arguments in the right order', p, r,
-                                   (nref / ng - 1) * v['d'], 0, pid=PID, key='O3:co2-form', oracle='oracles.c19:atmosphere', domain=None,
-                                   make_args=mk, timeout_s=QT[tier]))
+        for r, wk, nm in zip(rs, ('wl', 'wl2', 'wl'), ('', ' (second call: same atmosphere, another wavelength)', ' (third call: first wavelength again)')):
+            ng = 1 + grp(v[wk], v['t'], v['p'], h2p(v['h'], v['t']), v['xc']) / 100000000
+            out.append(ob.decide_close('O3', 'CO2-aware correction = (n_ref / n_g - 1) * distance with arguments in the right order' + nm, p, r,
+                                       (nref / ng - 1) * v['d'], 0, pid=PID, key='O3:co2-form', oracle='oracles.c19:atmosphere', domain=None,
+                                       make_args=mk, timeout_s=QT[tier]))
     return out or [ob.res('O3', 'CO2 wiring', 'inconclusive', [], 'no path')]
 
 
